@@ -825,6 +825,9 @@ func TestCheck(t *testing.T) {
 		}
 	})
 
+	// (2b) the real Client against the scripted peer announcing small segment MRUs
+	realPeerGroup(r)
+
 	// (3) real Clients over TCP and WebSocket, four senders per direction on one session (real time, event-count oracle)
 	r.Group("sock", r.Pick(4, 24), func(i int, rng *report.Rand) {
 		proto := []string{"tcp", "ws"}[i%2]
